@@ -198,21 +198,18 @@ Proof.
   destruct (strip s) as [|c r]; [contradiction Hne; reflexivity|]. reflexivity.
 Qed.
 
-(* ------------------------------------------------------------------ DEFAULT_DELAY: G1 is false *)
+(* ------------------------------------------------------------------ DEFAULT_DELAY (validated since the fix commit) *)
 Ltac unfold_formatter H :=
   unfold eval_formatter in H;
   cbn [s_params s_format_arg f_rules f_default eval_formatter_rules eval_bexpr eval_sexpr bind] in H.
-Lemma default_delay_accepts_all : forall sc, find_class n_DefaultDelay = Some sc ->
-  forall z, eval_validator (s_params sc) (s_verify_arg sc) (AInt z) = Ok true.
-Proof. intros sc Hsc z. open_class Hsc. reflexivity. Qed.
-
-Lemma default_delay_not_strict : forall sc, find_class n_DefaultDelay = Some sc ->
-  exists a, is_int a /\ eval_validator (s_params sc) (s_verify_arg sc) a = Ok true
-            /\ legal_arg SDefaultDelay a = false.
+Lemma default_delay_strict : forall sc, find_class n_DefaultDelay = Some sc -> forall a, is_int a ->
+  eval_validator (s_params sc) (s_verify_arg sc) a = Ok true -> legal_arg SDefaultDelay a = true.
 Proof.
-  intros sc Hsc. exists (AInt (-1)). split; [exact I|]. split.
-  - apply default_delay_accepts_all. exact Hsc.
-  - reflexivity.
+  intros sc Hsc a Ht Hv.
+  open_class Hsc. destruct a as [s|z]; [contradiction|].
+  unfold_validator Hv. cbn [legal_arg].
+  destruct (cmp_eval CLt z 0) eqn:El; [discriminate|].
+  cbn [cmp_eval] in El. apply Z.leb_le. apply Z.ltb_ge in El. exact El.
 Qed.
 
 Lemma alt_format : forall sc, find_class n_Alt = Some sc -> forall a a', is_str a ->
@@ -371,7 +368,7 @@ Proof.
   - exact (sysrq_strict sc Hsc a Ht Hv).
   - exact (flipmod_strict sc Hsc a Ht Hv).
   - exact (delay_strict sc Hsc a Ht Hv).
-  - contradiction Hc; reflexivity.
+  - exact (default_delay_strict sc Hsc a Ht Hv).
   - exact (altchar_strict sc Hsc a Ht Hv).
   - exact (whitespace_strict sc Hsc a Ht Hv).
 Qed.
@@ -432,30 +429,20 @@ Proof.
   cbn [content_text]. apply Z_to_str_digit_string. apply Z.leb_le. exact Hl.
 Qed.
 
-(* DEFAULT_DELAY, corrected statement: the validator accepts every integer, so all that holds of
-   the emitted text is that it is an integer literal, possibly negative *)
-Theorem default_delay_line_literal : forall sc, find_class n_DefaultDelay = Some sc ->
+(* DEFAULT_DELAY: like DELAY, the text after the command word is a non-empty run of ASCII digits *)
+Theorem default_delay_line_digits : forall sc, find_class n_DefaultDelay = Some sc ->
   forall name a a' n orig, is_int a ->
   eval_validator (s_params sc) (s_verify_arg sc) a = Ok true ->
   eval_formatter (s_params sc) (s_format_arg sc) a = Ok a' ->
   exists d, name_line name (Some (mkLine a' n orig)) = upper name ++ [32%N] ++ d
-            /\ int_literal d = true.
+            /\ digit_string d = true.
 Proof.
   intros sc Hsc name a a' n orig Ht Hv Hf.
   rewrite (other_format SDefaultDelay ltac:(discriminate) ltac:(discriminate) sc Hsc a a' Hf).
+  pose proof (default_delay_strict sc Hsc a Ht Hv) as Hl.
   exists (content_text a). split; [reflexivity|].
-  destruct a as [s|z]; [contradiction|]. cbn [content_text]. apply Z_to_str_int_literal.
-Qed.
-
-(* ... and a negative one is really emitted *)
-Theorem default_delay_emits_negative : forall sc, find_class n_DefaultDelay = Some sc ->
-  forall name n orig,
-  eval_validator (s_params sc) (s_verify_arg sc) (AInt (-5)) = Ok true /\
-  eval_formatter (s_params sc) (s_format_arg sc) (AInt (-5)) = Ok (AInt (-5)) /\
-  name_line name (Some (mkLine (AInt (-5)) n orig)) = upper name ++ [32; 45; 53]%N.
-Proof.
-  intros sc Hsc name n orig. split; [apply default_delay_accepts_all; exact Hsc|].
-  split; [open_class Hsc; reflexivity|]. reflexivity.
+  destruct a as [s|z]; [contradiction|]. cbn [legal_arg] in Hl.
+  cbn [content_text]. apply Z_to_str_digit_string. apply Z.leb_le. exact Hl.
 Qed.
 (* ------------------------------------------------------------------ converse: nothing legal is refused *)
 Lemma one_char_zlen : forall s : str, one_char s = true -> Z.eqb (zlen s) 1 = true.
@@ -516,7 +503,11 @@ Proof.
     cbn [s_params s_verify_arg v_rules v_default eval_validator_rules eval_bexpr eval_sexpr bind].
     cbn [legal_arg] in Hl. cbn [cmp_eval]. apply Z.leb_le in Hl.
     assert (H0 : (z <? 0)%Z = false) by (apply Z.ltb_ge; exact Hl). rewrite H0. reflexivity.
-  - destruct a as [s|z]; [contradiction|]. apply default_delay_accepts_all. exact Hsc.
+  - open_class Hsc. destruct a as [s|z]; [contradiction|].
+    unfold eval_validator.
+    cbn [s_params s_verify_arg v_rules v_default eval_validator_rules eval_bexpr eval_sexpr bind].
+    cbn [legal_arg] in Hl. cbn [cmp_eval]. apply Z.leb_le in Hl.
+    assert (H0 : (z <? 0)%Z = false) by (apply Z.ltb_ge; exact Hl). rewrite H0. reflexivity.
   - open_class Hsc. destruct a as [s|z]; [|contradiction].
     unfold eval_validator.
     cbn [s_params s_verify_arg v_rules v_default eval_validator_rules eval_bexpr eval_sexpr bind].
